@@ -368,6 +368,17 @@ def f_vector_x(J, a=1.0, table=None):
     return np.array([a * J[0], table[0] + J[1], J[2] * table[2]])
 
 
+def f_scalar_kw(J, **params):
+    """takes its shared extra arguments through a catch-all (a wrapper that forwards **params)"""
+    _cost(J, 0.004)
+    return float(params["a"] * J[0] + params["table"][1] * J[1] - J[2])
+
+
+def f_vector_kw(J, scale=2.0, **params):
+    _cost(J, 0.004)
+    return np.array([scale * params["a"] * J[0], params["table"][0] + J[1], J[2] * params["table"][2]])
+
+
 def f_mixed(J):
     """an everyday piecewise function: a Python int (0 or 1) at some points, a float elsewhere — the serial list
     comprehension promotes the whole result to float; so must the parallel evaluation, whatever the chunking"""
@@ -389,7 +400,9 @@ def f_matrix(J):
 
 FUNCS = {"matrix": (f_matrix, {}), "mixed-int-float": (f_mixed, {}), "mixed-int-float-vector": (f_mixed_vec, {}),
          "scalar": (f_scalar, {}), "scalar+args": (f_scalar_x, {"a": 2.5, "table": np.array([0.5, -1.25, 3.0])}),
-         "vector": (f_vector, {}), "vector+args": (f_vector_x, {"a": -0.75, "table": np.array([0.5, -1.25, 3.0])})}
+         "vector": (f_vector, {}), "vector+args": (f_vector_x, {"a": -0.75, "table": np.array([0.5, -1.25, 3.0])}),
+         "scalar+kwargs": (f_scalar_kw, {"a": 1.5, "table": np.array([0.25, -2.0, 1.0])}),
+         "vector+kwargs": (f_vector_kw, {"a": -0.5, "table": np.array([0.5, -1.25, 3.0])})}
 
 
 def get_points(scheme, s):
@@ -701,6 +714,12 @@ def compute_cases(tier, seed):
     # few points, many workers (more chunks requested than points)
     cases.append({"kind": "compute", "scheme": "symmetric", "s": 2, "func": "vector", "n_jobs": 16})
     cases.append({"kind": "compute", "scheme": "plain", "s": 2, "func": "scalar+args", "n_jobs": 5})
+    # as many components per point as there are points (a square result: the orientation cannot be guessed from the shape)
+    for j in ([1, 3] if tier == "quick" else [1, 2, 3, 4, 7, 16]):
+        cases.append({"kind": "compute", "scheme": "plain", "s": 2, "func": "vector", "n_jobs": j})                    # 4 points, 4-vectors
+        cases.append({"kind": "compute", "scheme": "symmetric", "s": 2, "func": "vector+args", "n_jobs": j})           # 3 points, 3-vectors
+        cases.append({"kind": "compute", "scheme": "symmetric", "s": 2, "func": "mixed-int-float-vector", "n_jobs": j})
+        cases.append({"kind": "compute", "scheme": "symmetric", "s": 2, "func": "matrix", "n_jobs": j})                # (3, 2, 3)
     return cases
 
 
